@@ -12,6 +12,7 @@ import (
 	"os/exec"
 	"path/filepath"
 	"strings"
+	"syscall"
 )
 
 // RepoDir is the repository under test (VERIF_REPO, default /repo).
@@ -36,8 +37,21 @@ func WorkDir() string {
 
 // BuildIndexserver builds cmd/zoekt-sourcegraph-indexserver of the repository under test with -tags verif
 // and returns the binary's path. A build failure means a hooked declaration changed shape: exit non-zero.
-func BuildIndexserver() string {
+func BuildIndexserver(tag string) string {
+	// a stable output path lets `go build` skip the link when the tree has not changed (it compares build ids);
+	// one path per property so that concurrent checks do not write the same file
 	bin := filepath.Join(WorkDir(), "indexserver.verif.bin")
+	if root := os.Getenv("VERIF_ROOT"); root != "" {
+		if err := os.MkdirAll(filepath.Join(root, "harness", "bin"), 0o755); err == nil {
+			bin = filepath.Join(root, "harness", "bin", "indexserver."+tag+".bin")
+		}
+	}
+	if lk, err := os.OpenFile(bin+".lock", os.O_CREATE|os.O_RDWR, 0o644); err == nil {
+		defer lk.Close()
+		if syscall.Flock(int(lk.Fd()), syscall.LOCK_EX) == nil {
+			defer syscall.Flock(int(lk.Fd()), syscall.LOCK_UN)
+		}
+	}
 	cmd := exec.Command("go", "build", "-tags", "verif", "-o", bin, "./cmd/zoekt-sourcegraph-indexserver")
 	cmd.Dir = RepoDir()
 	out, err := cmd.CombinedOutput()
